@@ -141,14 +141,18 @@ Definition wcands (ps : list (Q * Q)) (W t : Q) : list (option Q) :=
 Definition wiqr_exact (ps : list (Q * Q)) (W : Q) (wex : bool) : bool :=
   wex && fits53 (W * (3 # 4)) && fits53 (W * (1 # 4)) && targets_exact (map snd ps) (W * (3 # 4)) && targets_exact (map snd ps) (W * (1 # 4)).
 
-(* IQR = Quantile(0.75) - Quantile(0.25);  [s'] is the sorted sample, iqr s' = iqr s (iqr_sort_first) *)
-Definition iqr_ok (s' : sample) (xs : list Q) (ps : list (Q * Q)) (W : Q) (wex : bool) (ist : Z) (iv : xreal) : bool :=
+(* IQR = Quantile(0.75) - Quantile(0.25);  [s'] is the sorted sample, iqr s' = iqr s (iqr_sort_first).
+   Verdict code of the IQR observable: 0 within tolerance of the model value (exact targets 3W/4, W/4),
+   1 BORDERLINE: weighted, the float scan is not exact and only a choice inside the borderline windows of the
+   two quartile targets matches (accepted, counted as borderline), 2 mismatch *)
+Definition iqr_code (s' : sample) (xs : list Q) (ps : list (Q * Q)) (W : Q) (wex : bool) (ist : Z) (iv : xreal) : Z :=
   let ir := iqr s' in
   match s_ws s' with
-  | None => rv_close (tol_iqr_unw xs) ir ist iv
+  | None => if rv_close (tol_iqr_unw xs) ir ist iv then 0%Z else 2%Z
   | Some _ =>
       let tolw := tol_iqr_w xs in
-      rv_close tolw ir ist iv ||
+      if rv_close tolw ir ist iv then 0%Z
+      else if
       (* weighted: both quartiles are sample values; accept the borderline choices *)
       negb (wiqr_exact ps W wex) && (ist =? 0)%Z &&
       match iv with
@@ -159,7 +163,10 @@ Definition iqr_ok (s' : sample) (xs : list Q) (ps : list (Q * Q)) (W : Q) (wex :
                                               | _, _ => false end) c1)
                   (wcands ps W (W * (3 # 4)))
       | _ => false end
+      then 1%Z else 2%Z
   end.
+Definition iqr_ok (s' : sample) (xs : list Q) (ps : list (Q * Q)) (W : Q) (wex : bool) (ist : Z) (iv : xreal) : bool :=
+  negb (iqr_code s' xs ps W wex ist iv =? 2)%Z.
 
 (* ---------- exact order facts on the observed floats (NO tolerance) ----------
    The property states them outright: a quantile lies between the minimum and the maximum, is
@@ -236,7 +243,10 @@ Definition check_case (c : c10case) : Z * Z * Z * list Z :=
           else if match fst oc with Some _ => true | None => false end
                then (V_MISMATCH, tag', (-4)%Z, match fst oc with Some w => [10%Z; w] | None => [] end)
           else if negb (unm =? 1)%Z then (V_MISMATCH, tag', (-2)%Z, [9%Z])
-          else if iqr_ok s' xs ps W wex ist iv then (code, tag', (-1)%Z, [])
+          else if iqr_ok s' xs ps W wex ist iv then
+            (* a borderline choice inside the weighted IQR raises the verdict code to 1 *)
+            let ic := iqr_code s' xs ps W wex ist iv in
+            (Z.max code ic, (if (ic =? 1)%Z && negb (tag' =? 0)%Z then Z.lor tag' T_BORDER else tag'), (-1)%Z, [])
           else (V_MISMATCH, tag', (-3)%Z, match iqr s' with RVal e => 1%Z :: qdiag e | RNaN => [0%Z] | RPanic => [2%Z] end)
       end
   end.
